@@ -932,12 +932,14 @@ c_rule_ldresnearX (OrcCompiler *p, void *user, OrcInstruction *insn)
   c_get_name_int (src1, p, insn, insn->src_args[1]);
   c_get_name_int (src2, p, insn, insn->src_args[2]);
 
+  /* 16.16 position: index * increment leaves the range of int after 32768
+   * elements at scale 1.0 (the operands are ints in the generated functions) */
   if (p->target_flags & ORC_TARGET_C_OPCODE &&
       !(insn->flags & ORC_INSN_FLAG_ADDED)) {
-    ORC_ASM_CODE(p,"    var%d = ptr%d[(%s + (offset + i)*%s)>>16];\n",
+    ORC_ASM_CODE(p,"    var%d = ptr%d[(%s + (orc_int64)(offset + i)*%s)>>16];\n",
         insn->dest_args[0], insn->src_args[0], src1, src2);
   } else {
-    ORC_ASM_CODE(p,"    var%d = ptr%d[(%s + i*%s)>>16];\n",
+    ORC_ASM_CODE(p,"    var%d = ptr%d[(%s + (orc_int64)i*%s)>>16];\n",
         insn->dest_args[0], insn->src_args[0], src1, src2);
   }
 }
